@@ -167,8 +167,11 @@ def lossy_steps_expr(case_shape, sc, out, steps, tol=1e-9, scale=4):
         ia, ib = ref(a), ref(b)
         parts.append(f"(let s := forward_lossyX K sc te tm (mkSt (K:=K) {a['t']} {v3(f'fe{ia}')} {v3(f'fh{ia}')} [] []) in (Nat.eqb (tstep s) {b['t']}) && "
                      f"({cmp_} (V3_tab K {nx} {ny} {nz} (fE s)) fe{ib}) && ({cmp_} (V3_tab K {nx} {ny} {nz} (fH s)) fh{ib}))")
-    return (f"(let sc := {sc} in let te := {lossy_tier(case_shape, out.get('ieps9'), None, out.get('sigE9'))} in "
-            f"let tm := {lossy_tier(case_shape, out.get('imu9'), None, out.get('sigH9'))} in "
+    # the implementation takes the full-anisotropic branch of a half step when the inverse tensor OR the conductivity has 9 components
+    tE = out.get('ieps9') or (out.get('ieps9x') if out.get('sigE_full') else None)
+    tH = out.get('imu9') or (out.get('imu9x') if out.get('sigH_full') else None)
+    return (f"(let sc := {sc} in let te := {lossy_tier(case_shape, tE, None, out.get('sigE9'))} in "
+            f"let tm := {lossy_tier(case_shape, tH, None, out.get('sigH9'))} in "
             + "".join(binds) + "(" + " && ".join(parts) + ")%bool)")
 
 
